@@ -25,7 +25,7 @@ SO = {"threads": 1, "time_limit": 20}
 FLOWCLS = W.FD + W.ERR
 KINDS = ["non_string_nodes", "cyclic_for_dag", "no_source", "no_sink", "negative_weight", "missing_weight", "non_conserving", "constraint_absent_edge",
          "constraint_not_list", "constraint_empty", "constraint_not_tuples", "coverage_zero", "coverage_negative", "coverage_above_one", "k_zero", "k_negative",
-         "weight_type_str", "weight_type_complex", "origin_unknown", "unknown_start", "unknown_end", "scale_above_one", "scale_negative", "ignore_malformed",
+         "weight_type_str", "weight_type_complex", "weight_type_bool", "weight_type_subclass", "origin_unknown", "unknown_start", "unknown_end", "scale_above_one", "scale_negative", "ignore_malformed",
          "plr_mismatch", "plf_float", "empty_graph"]
 
 
@@ -135,6 +135,10 @@ def mutate(kind, cls, inst, meta, rng):
         kw["weight_type"] = "str"
     elif kind == "weight_type_complex":
         kw["weight_type"] = "complex"
+    elif kind == "weight_type_bool":
+        kw["weight_type"] = "bool"
+    elif kind == "weight_type_subclass":
+        kw["weight_type"] = "floatsub"
     elif kind == "origin_unknown":
         kw["cover_type" if cls in W.COV else "flow_attr_origin"] = "vertex"
     elif kind == "unknown_start":
@@ -157,6 +161,10 @@ def mutate(kind, cls, inst, meta, rng):
             kw.pop(k, None)
     inst["_special"] = special
     return inst
+
+
+class _Money(float):
+    """a user-defined subclass of float: not one of the two documented weight types (int, float)"""
 
 
 def construct_special(inst):
@@ -189,6 +197,10 @@ def construct_special(inst):
         kw["weight_type"] = str
     if kw.get("weight_type") == "complex":
         kw["weight_type"] = complex
+    if kw.get("weight_type") == "bool":
+        kw["weight_type"] = bool             # a subclass of int, but not one of the two documented weight types
+    if kw.get("weight_type") == "floatsub":
+        kw["weight_type"] = _Money
     kw["solver_options"] = dict(SO)
     return G, kw
 
@@ -220,6 +232,9 @@ def gen_cases(tier, seed):
             cases.append({"kind": "converse", "cls": cls, "rs": f"C19c:{seed}:{cls}:{i}"})
     for i in range(per * 6):
         cases.append({"kind": "aux", "rs": f"C19a:{seed}:{i}", "which": i % 12})
+    for cls in ("kFlowDecomp", "MinFlowDecomp", "MinFlowDecompCycles"):
+        for i in range(per * 3):
+            cases.append({"kind": "history", "cls": cls, "rs": f"C19h:{seed}:{cls}:{i}"})
     cases.append({"kind": "converse_corpus"})
     return cases
 
@@ -274,6 +289,38 @@ def run_case(case):
         if out["exc"] is not None:
             viol.append({"sig": f"C19/in-domain-input-raises/{cls}/{out['exc']}" + ("/node" if meta["mode"] == "node" else ""), "msg": f"{out['exc']}: {out.get('msg')} at {out['stage']}; {desc}"})
         return {"viol": viol, "obs": dict(obs), "nontrivial": True, "keys": [hashlib.sha1(desc.encode()).hexdigest()[:14]], "sample": {"inst": models.brief(inst), "outcome": {k: out[k] for k in ("stage", "exc", "solved")}}}
+    if case["kind"] == "history":
+        # the SAME graph object is handed to the class several times while the caller edits it in between: every construction must be
+        # judged on the graph as it is at that moment (valid -> accepted, non-conserving -> ValueError), in whatever order
+        rng = gen.rng_for(case["rs"]); cls = case["cls"]; cyc = cls.endswith("Cycles")
+        base = I.cyc_edge_base(rng, wt="int", max_edges=8) if cyc else I.dag_edge_base(rng, wt="int", max_edges=9)
+        G = gen.build(I.spec_of(base))
+        inner = [e for e in G.edges if e[0] != e[1] and (G.in_degree(e[0]) > 0 or G.out_degree(e[1]) > 0)]      # (a self-loop adds to both sides: no effect on conservation)
+        if not inner:
+            return {"viol": [], "obs": {"c19.not_applicable": 1}, "nontrivial": False}
+        e = rng.choice(inner); good = G.edges[e]["flow"]; bad = good + rng.choice([1, 2, 5])
+        kw = {"flow_attr": "flow", "weight_type": int, "solver_options": dict(SO)}
+        if cls.startswith("k"):
+            kw["k"] = max(1, len(base["planted"])) + 1
+        states = rng.choice([["good", "bad", "good"], ["bad", "good", "bad"], ["good", "good", "bad", "good"], ["bad", "bad", "good"]])
+        hist = []
+        for st_ in states:
+            G.edges[e]["flow"] = good if st_ == "good" else bad
+            out = run_model(cls, G, dict(kw)); hist.append((st_, out["stage"], out["exc"], out["solved"]))
+            obs["c19.history_steps"] += 1
+            desc = f"{cls} same graph object, states so far {hist}; edge {e} flow {good} (conserving) / {bad} (not); edges={[(u, v, d.get('flow')) for u, v, d in G.edges(data=True)]}"[:900]
+            if st_ == "bad":
+                obs["c19.invalid_inputs_judged"] += 1
+                judge_invalid(cls, ["non_conserving", "after-edit"], out, viol, desc)
+            else:
+                obs["c19.converse_judged"] += 1
+                if out["exc"] is not None:
+                    viol.append({"sig": f"C19/in-domain-input-raises/{cls}/{out['exc']}/after-edit", "msg": f"{out['exc']}: {out.get('msg')}; {desc}"})
+        seen = set(); outv = []
+        for v in viol:
+            if v["sig"] not in seen:
+                seen.add(v["sig"]); outv.append(v)
+        return {"viol": outv, "obs": dict(obs), "nontrivial": True, "keys": [hashlib.sha1(repr((cls, states, list(G.edges(data=True)))).encode()).hexdigest()[:14]], "sample": {"cls": cls, "history": [list(h) for h in hist]}}
     if case["kind"] == "converse_corpus":
         one = nx.DiGraph(); one.add_node("v", flow=4)
         iso = nx.DiGraph(); iso.add_node("v", flow=4); iso.add_edge("a", "b"); iso.nodes["a"]["flow"] = 2; iso.nodes["b"]["flow"] = 2
